@@ -731,4 +731,31 @@ mod async_facade {
             life: c.metrics.verif_life(),
         }
     }
+
+    /// capacity of the insert buffer (the policy's get-batch queue is unbounded in this flavour)
+    pub fn async_cache_buffer_cap<K, V, KH, C, U, CB, S>(c: &AsyncCache<K, V, KH, C, U, CB, S>) -> Option<usize>
+    where
+        K: Hash + Eq,
+        V: Send + Sync + 'static,
+        KH: KeyBuilder<Key = K>,
+        C: Coster<Value = V>,
+        U: UpdateValidator<Value = V>,
+        CB: CacheCallback<Value = V>,
+        S: BuildHasher + Clone + 'static + Send + Sync,
+    {
+        c.insert_buf_tx.capacity()
+    }
+
+    pub fn async_cache_item_size<K, V, KH, C, U, CB, S>(c: &AsyncCache<K, V, KH, C, U, CB, S>) -> usize
+    where
+        K: Hash + Eq,
+        V: Send + Sync + 'static,
+        KH: KeyBuilder<Key = K>,
+        C: Coster<Value = V>,
+        U: UpdateValidator<Value = V>,
+        CB: CacheCallback<Value = V>,
+        S: BuildHasher + Clone + 'static + Send + Sync,
+    {
+        c.store.item_size()
+    }
 }
